@@ -53,6 +53,19 @@ def canon_cells(reply):
     return reply
 
 
+def canon_eff_cells(reply):
+    """'ok <fmt>' -> per-character (character, EFFECTIVE formatting): an explicit False style and an absent key are the
+    same formatting (what a terminal shows); errors and other replies unchanged"""
+    if reply.startswith("ok "):
+        return ("effcells", tuple(wire.eff_cells_of_chunks(wire.dec_fmt(reply[3:]))))
+    return reply
+
+
+def eff_cells(cs):
+    """per-character cells (ch, atts-tuple) -> the same with explicit False entries dropped"""
+    return [(ch, tuple((k, v) for k, v in a if v is not False)) for ch, a in cs]
+
+
 def canon_cells_list(reply):
     """'ok [<fmt> <fmt> ...]' -> tuple of per-piece cells"""
     if reply.startswith("ok ["):
